@@ -6,6 +6,8 @@ package dastard
 // Engine A: BFS to a fixpoint over connection sets (every (set, edit) transition executed on the real
 // broker through ChangeGroupTrigger / StopTriggerCoupling / SetCoupling), each transition followed by
 // data cycles through the real ProcessSegments with primaries on every subset of channels.
+// Requests are single pairs, and whole receiver lists (one or two source keys) in which valid, self, repeated
+// and out-of-range indices are mixed in every order; the same at the SourceControl RPC level.
 
 import (
 	"fmt"
@@ -433,6 +435,69 @@ func vGTOps(nchan int, lancero bool) []vGTOp {
 	return ops
 }
 
+// vGTLists returns every receiver list of length n over idx (all sequences: repeated, self and out-of-range
+// indices in every position).
+func vGTLists(idx []int, n int) [][]int {
+	if n == 0 {
+		return [][]int{nil}
+	}
+	var out [][]int
+	for _, l := range vGTLists(idx, n-1) {
+		for _, r := range idx {
+			out = append(out, append(append([]int{}, l...), r))
+		}
+	}
+	return out
+}
+
+// vGTReqOp makes one add/delete request out of a whole connections map (name with the source keys in
+// ascending order; the order in which the real code visits the keys is Go's map order).
+func vGTReqOp(kind string, pairs map[int][]int) vGTOp {
+	var keys []int
+	for s := range pairs {
+		keys = append(keys, s)
+	}
+	sort.Ints(keys)
+	var parts []string
+	for _, s := range keys {
+		parts = append(parts, fmt.Sprintf("%d>%v", s, pairs[s]))
+	}
+	return vGTOp{name: fmt.Sprintf("%s(%s)", kind, strings.Join(parts, ";")), kind: kind, pairs: pairs}
+}
+
+// vGTListOps: requests of one kind with one source key and every receiver list of the given lengths over idx.
+func vGTListOps(kind string, source int, idx []int, lengths ...int) []vGTOp {
+	var ops []vGTOp
+	for _, n := range lengths {
+		for _, l := range vGTLists(idx, n) {
+			ops = append(ops, vGTReqOp(kind, map[int][]int{source: l}))
+		}
+	}
+	return ops
+}
+
+// vGTGenerators: the single-pair adds of every valid pair, and stop: enough to reach every connection set.
+func vGTGenerators(nchan int) []vGTOp {
+	var ops []vGTOp
+	for s := 0; s < nchan; s++ {
+		for r := 0; r < nchan; r++ {
+			if s != r {
+				ops = append(ops, vGTOp{name: fmt.Sprintf("add(%d>%d)", s, r), kind: "add", pairs: map[int][]int{s: {r}}})
+			}
+		}
+	}
+	return append(ops, vGTOp{name: "stop", kind: "stop"})
+}
+
+// vGTIdx is the index alphabet of the generic source: -1, every channel, and nchan.
+func vGTIdx(nchan int) []int {
+	idx := []int{-1}
+	for i := 0; i <= nchan; i++ {
+		idx = append(idx, i)
+	}
+	return idx
+}
+
 func vGTRun(x *vexp.X, nchan int, lancero bool, ops []vGTOp, hist []int, cycleEvery bool, rpc ...bool) (string, vexp.Result) {
 	m := vGTNew(nchan, lancero)
 	if len(rpc) > 0 && rpc[0] {
@@ -458,7 +523,9 @@ func TestVerifC09(t *testing.T) {
 	r := vexp.NewRunner("C09")
 	defer r.Finish()
 	depth := 3
-	r.SetBound(fmt.Sprintf("BFS to closure over connection sets: generic source with 3 channels (add/delete of every pair over indices -1..3, multi-pair requests, stop, NoCoupling) and Lancero source with 4 channels (err/fb couplings, selected pairs, stop); after every edit 9 data cycles (every subset of channels firing + two sources on one frame); plus un-merged DFS of all edit sequences to depth %d; the same closure and all sequences of depth 2 through the SourceControl RPC methods, where the connection set of the last GROUPTRIGGER message sent to clients must equal the set in use", depth))
+	r.SetBound(fmt.Sprintf("BFS to closure over connection sets: generic source with 3 channels (add/delete of every pair over indices -1..3, multi-pair requests, stop, NoCoupling) and Lancero source with 4 channels (err/fb couplings, selected pairs, stop); after every edit 9 data cycles (every subset of channels firing + two sources on one frame); plus un-merged DFS of all edit sequences to depth %d; the same closure and all sequences of depth 2 through the SourceControl RPC methods, where the connection set of the last GROUPTRIGGER message sent to clients must equal the set in use. "+
+		"Receiver-list families, each at source level and through the RPC methods: closure of every (connection set, request) pair for add/delete requests with one source key in -1..3 and EVERY receiver list of length 2 and 3 over -1..3 (valid, self, repeated, negative and >=nchan indices in every order; 1500 requests x 64 sets); Lancero: source 0 with every list of length 2 and 3 over {-1,0,1,2,4}; "+
+		"add/delete requests with two source keys out of -1..3 and every pair of length-2 lists, applied to the empty and to the full connection set; un-merged DFS of all sequences of depth 2 over the single-pair alphabet plus every length-2 list request (305 requests)", depth))
 	for _, cfg := range []struct {
 		nchan   int
 		lancero bool
@@ -501,5 +568,71 @@ func TestVerifC09(t *testing.T) {
 			_, res := vGTRun(x, 3, false, ops, hist, true)
 			return res
 		})
+	}
+
+	// ---- receiver-list families: one request carries a whole list of receivers (and several source keys), in which
+	// valid, self, repeated and out-of-range indices are mixed in every order; every valid pair of the request must take
+	// effect (add) / disappear (delete), every other index must not, whatever precedes it in the list.
+	const nch = 3
+	idx := vGTIdx(nch)
+	gens := vGTGenerators(nch)
+	for _, rpc := range []bool{false, true} {
+		rpc := rpc
+		level := ""
+		if rpc {
+			level = "rpc-"
+		}
+		// (a) closure: every (connection set, list request) pair; one BFS per (kind, source key) so that the work spreads
+		// over the workers; the generators reach every set, the list requests are applied to each of them once
+		for _, kind := range []string{"add", "del"} {
+			for _, s := range idx {
+				lops := append(append([]vGTOp{}, gens...), vGTListOps(kind, s, idx, 2, 3)...)
+				r.BFS(fmt.Sprintf("%sbfs-lists/%s/source=%d", level, kind, s), vexp.BFSSpec{NumOps: len(lops),
+					Run: func(x *vexp.X, hist []int) (string, vexp.Result) {
+						return vGTRun(x, nch, false, lops, hist, false, rpc)
+					}})
+			}
+			// Lancero source (4 channels): lists for source 0 over the receivers its alphabet already uses
+			lanOps := append(vGTOps(4, true), vGTListOps(kind, 0, []int{-1, 0, 1, 2, 4}, 2, 3)...)
+			r.BFS(fmt.Sprintf("%sbfs-lists/%s/lancero", level, kind), vexp.BFSSpec{NumOps: len(lanOps),
+				Run: func(x *vexp.X, hist []int) (string, vexp.Result) {
+					return vGTRun(x, 4, true, lanOps, hist, false, rpc)
+				}})
+		}
+		// (b) two source keys in one request, every pair of length-2 lists, on the empty and on the full connection set
+		full := vGTReqOp("add", map[int][]int{0: {1, 2}, 1: {0, 2}, 2: {0, 1}})
+		l2 := vGTLists(idx, 2)
+		for _, kind := range []string{"add", "del"} {
+			kind := kind
+			for i, s1 := range idx {
+				for _, s2 := range idx[i+1:] {
+					s1, s2 := s1, s2
+					r.DFS(fmt.Sprintf("%stwo-sources/%s/%d,%d", level, kind, s1, s2), -1, func(x *vexp.X) vexp.Result {
+						op := vGTReqOp(kind, map[int][]int{s1: l2[x.Choose(len(l2))], s2: l2[x.Choose(len(l2))]})
+						tops, hist := []vGTOp{full, op}, []int{1}
+						if x.Choose(2) == 1 {
+							hist = []int{0, 1}
+						}
+						_, res := vGTRun(x, nch, false, tops, hist, true, rpc)
+						return res
+					})
+				}
+			}
+		}
+		// (c) un-merged cross-check: all sequences of depth 2 over the single-pair alphabet plus every length-2 list request
+		dops := vGTOps(nch, false)
+		for _, kind := range []string{"add", "del"} {
+			for _, s := range idx {
+				dops = append(dops, vGTListOps(kind, s, idx, 2)...)
+			}
+		}
+		for first := range dops {
+			first := first
+			r.DFS(fmt.Sprintf("%sdfs2-lists/first=%s", level, dops[first].name), -1, func(x *vexp.X) vexp.Result {
+				hist := []int{first, x.Choose(len(dops))}
+				_, res := vGTRun(x, nch, false, dops, hist, !rpc, rpc) // data cycles after every edit (source level) / after the last (RPC level)
+				return res
+			})
+		}
 	}
 }
